@@ -265,7 +265,7 @@ impl Property for C18 {
         if inst.constraints.iter().any(|c| c.function.as_ref().map(|f| syntactic_ids(f).is_empty()).unwrap_or(true)) {
             ctx.label("constant-only-constraint");
         }
-        if inst.constraints.windows(2).any(|w| w[0].id + 1 != w[1].id) {
+        if inst.constraints.windows(2).any(|w| w[0].id.wrapping_add(1) != w[1].id) {
             ctx.label("noncontiguous-ids");
         }
         if nt_int && nt_nolower {
